@@ -503,6 +503,8 @@ class Array(metaclass=MetaArray):
         ):  # is a scalar type:
             if not isinstance(value, buffer.context.nplike_array_type):
                 value = buffer.context.nparray_to_context_array(value)
+            if len(info.shape) > 1:  # data is stored in memory order
+                value = value.transpose(info.order)
             buffer.update_from_nplike(coffset, cls._itemtype._dtype, value)
         elif isinstance(value, cls):
             if value._size == info.size:
